@@ -61,7 +61,27 @@ class DE:
         return 0.0
 
 
-DTYPES = {c.__name__: c for c in (DA, DB, DC, DD, DE, DF)}
+@labtech.task(cache=None)
+class DG:
+    """cache=None type with children (all NullCache keys are equal)."""
+    tag: str = ''
+    child: Any = None
+    kids: Any = ()
+
+    def run(self) -> str:
+        return self.tag
+
+
+@labtech.task(cache=None, max_parallel=1)
+class DH:
+    n: int = 0
+    leaf: Any = None
+
+    def run(self) -> int:
+        return self.n
+
+
+DTYPES = {c.__name__: c for c in (DA, DB, DC, DD, DE, DF, DG, DH)}
 # harness-owned expectation of each class block: fields (type string, name) in order, run line suffix
 EXPECT = {
     'DF': ([('int', 'n')], ' int'),
@@ -70,7 +90,9 @@ EXPECT = {
     'DA': ([('int', 'x'), ('Any', 'child'), ('list', 'kids'), ('dict', 'byname')], ' list[int]'),
     'DD': ([('Any', 'a'), ('Any', 'b')], ' dict'),
     'DE': ([('Any', 'kids'), ('bool', 'flag')], ' float'),
+    'DG': ([('str', 'tag'), ('Any', 'child'), ('Any', 'kids')], ' str'),
+    'DH': ([('int', 'n'), ('Any', 'leaf')], ' int'),
 }
 # which fields may hold tasks
 TASK_FIELDS = {'DF': [], 'DC': ['leaf'], 'DB': ['child', 'kids'], 'DA': ['child', 'kids', 'byname'],
-               'DD': ['a', 'b'], 'DE': ['kids']}
+               'DD': ['a', 'b'], 'DE': ['kids'], 'DG': ['child', 'kids'], 'DH': ['leaf']}
